@@ -454,7 +454,70 @@ func c17Case(tier string, seed int64, idx int, scratch string) rt.CaseResult {
 	if nroots >= 2 && !c17RetiredRoot(&c, r, idx, live, replay) {
 		return c
 	}
+	if eff > 100 && !c17LoweredLimit(&c, r, idx, replay) {
+		return c
+	}
 	return c
+}
+
+// c17LoweredLimit: the database is reopened with a smaller directory limit (100). Directories
+// that already hold more than that cannot shrink, but they must not receive anything more, and
+// no other directory may exceed the new limit.
+func c17LoweredLimit(c *rt.CaseResult, r *seqrun.Runner, idx int, replay map[string]any) bool {
+	old := r.Env
+	if err := old.Close(); err != nil {
+		c.Violate("close-failed", err.Error(), replay)
+		return false
+	}
+	eo := old.Opt
+	eo.RootPaths = append([]string(nil), old.Cfg.Storage.RootDirs...)
+	eo.MaxDirCount, eo.MaxDirExplicit = 100, true
+	env, err := dbx.Open(eo)
+	if err != nil {
+		c.Violate("open-failed after-lowering-the-limit", err.Error(), replay)
+		return false
+	}
+	r.Env = env
+	r.M.Reopen()
+	r.Txs = map[int]fs_db.Tx{}
+	_, dirs0, err := env.Walk(false)
+	if err != nil {
+		c.Inconclusive = append(c.Inconclusive, "walk: "+err.Error())
+		return false
+	}
+	start := map[string]int{}
+	for d, es := range dirs0 {
+		start[d] = len(es)
+	}
+	for i := 0; i < 230; i++ {
+		s := seqrun.Step{Op: "set", Actor: -1, Key: fmt.Sprintf("lower%d-%d", idx, i), Tag: fmt.Sprintf("c%d-lw%d", idx, i), Len: 5}
+		if m := r.Do(200000+i, s); m != nil {
+			replay["step"] = s
+			c.Violate(m.Sig+" after-lowering-the-limit", m.Error(), replay)
+			return false
+		}
+		_, dirs, err := env.Walk(false)
+		if err != nil {
+			c.Inconclusive = append(c.Inconclusive, "walk: "+err.Error())
+			return false
+		}
+		for d, es := range dirs {
+			if !uuidRe.MatchString(filepath.Base(d)) {
+				continue
+			}
+			lim := 100
+			if start[d] > lim {
+				lim = start[d]
+			}
+			if len(es) > lim {
+				c.Violate("directory-over-limit after-lowering-the-limit", fmt.Sprintf("the database was reopened with a limit of 100; directory %s held %d entries then and holds %d after %d more writes", d, start[d], len(es), i+1), replay)
+				return false
+			}
+		}
+		c.Evals++
+	}
+	c.AddDistinct("limit-lowered-at-reopen")
+	return true
 }
 
 // c17RetiredRoot: the database is reopened with its last root taken out of the configuration.
